@@ -92,15 +92,19 @@ theorem tame_releaseMapSlot (p : Pool) (t tk) : Tame p (p.releaseMapSlot t tk) :
   · exact Tame.trans (tame_releaseMap p _) (tame_modTask _ t _ (fun _ => rfl) (fun _ => Or.inl rfl))
   · exact Tame.refl p
 
+theorem tame_cbBegin (p : Pool) (t tk b) : Tame p (p.cbBegin t tk b) := by
+  unfold cbBegin
+  exact Tame.trans (tame_logEv p _) (tame_runHooks _ _ _)
+
 /-- the end callback (plain, raising or coroutine) with its user code is tame -/
 theorem tame_runCb_end (p : Pool) (t tk) : Tame p (p.runCb t tk true).1 := by
   unfold runCb
   simp only [if_true]
   split
   · exact Tame.refl p
-  · exact Tame.trans (Tame.trans (tame_logEv p _) (tame_runHooks _ _ _)) (tame_logEv _ _)
-  · exact Tame.trans (Tame.trans (tame_logEv p _) (tame_runHooks _ _ _)) (tame_modTask _ t _ (fun _ => rfl) (fun _ => Or.inl rfl))
-  · exact Tame.trans (Tame.trans (tame_logEv p _) (tame_runHooks _ _ _)) (tame_suspendTask_endCb _ t)
+  · exact Tame.trans (tame_cbBegin p t tk true) (tame_logEv _ _)
+  · exact Tame.trans (Tame.trans (tame_cbBegin p t tk true) (tame_logEv _ _)) (tame_modTask _ t _ (fun _ => rfl) (fun _ => Or.inl rfl))
+  · exact Tame.trans (tame_cbBegin p t tk true) (tame_suspendTask_endCb _ t)
 
 theorem tame_endCallback (p : Pool) (t tk) : Tame p (p.endCallback t tk) := by
   unfold endCallback
@@ -223,29 +227,26 @@ theorem good_runCb_cancel {cap : Nat} (p : Pool) (t : Nat) (tk : PTask) (hg : Go
     Good cap (p.runCb t tk false).1 ∧ (p.runCb t tk false).1.Unreleased t := by
   unfold runCb
   simp only [Bool.false_eq_true, if_false]
+  obtain ⟨hg1, hu1⟩ := Tame.goodU (tame_cbBegin p t tk false) hg hu
   split
   · exact ⟨hg, hu⟩
-  · refine Tame.goodU ?_ hg hu
-    exact Tame.trans (tame_logHooks _ _ _ _) (tame_logEv _ _)
-  · obtain ⟨hg1, hu1⟩ := Tame.goodU (tame_logHooks p (Ev.cancelCb t p.counters.1 p.counters.2.1 p.counters.2.2) tk.req (p.reqOf tk).hooks.cancelCb) hg hu
-    exact good_modTask_unreleased _ t _ hg1 hu1 (fun _ => rfl)
-  · obtain ⟨hg1, hu1⟩ := Tame.goodU (tame_logHooks p (Ev.cancelCb t p.counters.1 p.counters.2.1 p.counters.2.2) tk.req (p.reqOf tk).hooks.cancelCb) hg hu
-    exact goodU_suspendTask _ t _ hg1 hu1
+  · exact Tame.goodU (tame_logEv _ _) hg1 hu1
+  · obtain ⟨hg2, hu2⟩ := Tame.goodU (tame_logEv (p.cbBegin t tk false) (evCbRaised t false)) hg1 hu1
+    exact good_modTask_unreleased _ t _ hg2 hu2 (fun _ => rfl)
+  · exact goodU_suspendTask _ t _ hg1 hu1
 
 /-- if the cancel callback did not suspend, the task is still outside the slot-holding phases -/
 theorem runCb_cancel_ready (p : Pool) (t : Nat) (tk : PTask) (hr : p.ReadyToEnd t)
     (hns : (p.runCb t tk false).2 = false) : (p.runCb t tk false).1.ReadyToEnd t := by
   unfold runCb at hns ⊢
   simp only [Bool.false_eq_true, if_false] at hns ⊢
+  have h1 := Tame.readyToEnd (tame_cbBegin p t tk false) hr
   split
   · exact hr
+  · exact Tame.readyToEnd (tame_logEv _ _) h1
   · dsimp only
-    refine Tame.readyToEnd ?_ hr
-    exact Tame.trans (tame_logHooks _ _ _ _) (tame_logEv _ _)
-  · dsimp only
-    refine Tame.readyToEnd ?_ hr
-    refine Tame.trans (tame_logHooks p (Ev.cancelCb t p.counters.1 p.counters.2.1 p.counters.2.2) tk.req (p.reqOf tk).hooks.cancelCb) ?_
-    exact tame_modTask _ t _ (fun _ => rfl) (fun _ => Or.inl rfl)
+    refine Tame.readyToEnd ?_ h1
+    exact Tame.trans (tame_logEv _ _) (tame_modTask _ t _ (fun _ => rfl) (fun _ => Or.inl rfl))
   · rename_i h; simp [h] at hns
 
 theorem good_cancelCallback {cap : Nat} (p : Pool) (t : Nat) (tk : PTask) (hg : Good cap p) (hr : p.ReadyToEnd t) :
@@ -289,15 +290,19 @@ theorem good_stepCreated {cap : Nat} (p : Pool) (t : Nat) (tk : PTask) (hg : Goo
   unfold stepCreated
   split
   · exact (tame_completeTask p t _).good hg
-  · simp only
-    obtain ⟨hg0, hu0⟩ := Tame.goodU (tame_logEv p (Ev.started t)) hg hu
-    obtain ⟨hg1, hu1⟩ := good_modTask_unreleased (p.logEv (Ev.started t)) t
-      (fun k => { k with phase := .inWorker, fut := .ok }) hg0 hu0 (fun _ => rfl)
-    obtain ⟨hg2, hu2⟩ := Tame.goodU (tame_runHooks _ tk.req (p.reqOf tk).hooks.start) hg1 hu1
-    split
-    · exact good_afterWorker _ t _ hg2 hu2
-    · exact good_afterWorker _ t _ hg2 hu2
-    · exact good_suspendTask _ t _ hg2 hu2
+  · split
+    · obtain ⟨hg1, _⟩ := good_modTask_unreleased p t
+        (fun k => { k with phase := .wrapUp, unstarted := false, cancelledEarly := false }) hg hu (fun _ => rfl)
+      exact good_taskCancellation _ t tk hg1 (modTask_readyToEnd _ t _ hu (fun _ => rfl) (fun _ => rfl))
+    · simp only
+      obtain ⟨hg0, hu0⟩ := Tame.goodU (tame_logEv p (Ev.started t tk.arg)) hg hu
+      obtain ⟨hg1, hu1⟩ := good_modTask_unreleased (p.logEv (Ev.started t tk.arg)) t
+        (fun k => { k with phase := .inWorker, fut := .ok, unstarted := false }) hg0 hu0 (fun _ => rfl)
+      obtain ⟨hg2, hu2⟩ := Tame.goodU (tame_runHooks _ tk.req (p.reqOf tk).hooks.start) hg1 hu1
+      split
+      · exact good_afterWorker _ t _ hg2 hu2
+      · exact good_afterWorker _ t _ hg2 hu2
+      · exact good_suspendTask _ t _ hg2 hu2
 
 theorem good_workerCancelled {cap : Nat} (p : Pool) (t : Nat) (tk : PTask) (hg : Good cap p) (hu : p.Unreleased t) :
     Good cap (p.workerCancelled t tk) := by
@@ -327,8 +332,10 @@ theorem good_stepInCancelCb {cap : Nat} (p : Pool) (t : Nat) (tk : PTask) (hg : 
   split
   · obtain ⟨hg1, hu1⟩ := Tame.goodU (tame_logEv p (Ev.cancelCbDone t)) hg hu
     exact good_wrapUp_ending _ t _ hg1 hu1 (fun _ => rfl) (fun _ => rfl)
-  · exact good_wrapUp_ending p t _ hg hu (fun _ => rfl) (fun _ => rfl)
-  · exact good_wrapUp_ending p t _ hg hu (fun _ => rfl) (fun _ => rfl)
+  · obtain ⟨hg1, hu1⟩ := Tame.goodU (tame_logEv p (Ev.cancelCbRaised t)) hg hu
+    exact good_wrapUp_ending _ t _ hg1 hu1 (fun _ => rfl) (fun _ => rfl)
+  · obtain ⟨hg1, hu1⟩ := Tame.goodU (tame_logEv p (Ev.cancelCbKilled t)) hg hu
+    exact good_wrapUp_ending _ t _ hg1 hu1 (fun _ => rfl) (fun _ => rfl)
   · exact hg
 
 theorem tame_stepInEndCb (p : Pool) (t : Nat) (tk : PTask) : Tame p (p.stepInEndCb t tk) := by
@@ -336,9 +343,9 @@ theorem tame_stepInEndCb (p : Pool) (t : Nat) (tk : PTask) : Tame p (p.stepInEnd
   split
   · exact Tame.trans (tame_logEv p _) (tame_finishTask _ t)
   · refine Tame.trans ?_ (tame_finishTask _ t)
-    exact tame_modTask p t _ (fun _ => rfl) (fun _ => Or.inl rfl)
+    exact Tame.trans (tame_logEv p _) (tame_modTask _ t _ (fun _ => rfl) (fun _ => Or.inl rfl))
   · refine Tame.trans ?_ (tame_finishTask _ t)
-    exact tame_modTask p t _ (fun _ => rfl) (fun _ => Or.inl rfl)
+    exact Tame.trans (tame_logEv p _) (tame_modTask _ t _ (fun _ => rfl) (fun _ => Or.inl rfl))
   · exact Tame.refl p
 
 /-- one step of any pool task preserves slot conservation and the phase invariant -/
